@@ -241,6 +241,8 @@ def signature(e, clause):
     if k < len(a) and k < len(b):
         sig["in"] = a[k][:40]
         sig["out"] = b[k][:40]
+        # diagnostic: the whole content of the field is gone (only separators, or nothing, are left)
+        sig["content_dropped"] = bool(a[k].strip("~^&")) and not b[k].strip("~^&")
     return sig
 
 
